@@ -98,6 +98,68 @@ def two_cuts(c1: int, c2: int) -> bool:
     return ok
 
 
+# ------------------------------------------------------------------------------------------------
+# one inductive step of the framing function from an arbitrary buffer state (covers any number of cuts and PDUs)
+# ------------------------------------------------------------------------------------------------
+
+def _stream_of(name):
+    """everything the peer sends in conversation `name`, and the offsets at which its PDUs start"""
+    raw = b''.join(t[1] for t in CORPUS[name][1] if t[0] == 'peer')
+    bounds, pos = [], 0
+    while pos < len(raw):
+        bounds.append(pos)
+        pos += int.from_bytes(raw[pos + 2:pos + 6], 'big') + 6
+    return raw, bounds
+
+
+@cond(bounds='ONE call of the real _process_incoming from an arbitrary buffer state: the receive buffer holds the unread '
+             'rest of the peer\'s stream from a PDU boundary (every boundary of every conversation\'s stream, symbolic '
+             'selector) up to a SYMBOLIC fill level b (any value up to the end of the stream - unbounded integer). It '
+             'must consume exactly the first PDU (6 + its length field) iff that PDU is completely there, queue exactly '
+             'one event of that PDU\'s type with the decoded PDU (re-encoding to the same octets) as current primitive, '
+             'and leave the rest of the stream - again starting at a PDU boundary - in the buffer; otherwise leave '
+             'buffer, event queue and primitive slot untouched. The post-state is a pre-state of the same shape: by '
+             'induction over calls this covers every number of PDUs and every segmentation',
+      family=[dict(conv=n) for n in NAMES], timeout=180)
+def framing_step(j: int, b: int) -> bool:
+    """
+    pre: 0 <= j < len(_stream_of(fam('conv'))[1]) and 0 <= b
+    pre: _stream_of(fam('conv'))[1][j] <= b <= len(_stream_of(fam('conv'))[0])
+    post: _
+    """
+    from vt import sim
+    from pynetdicom2 import dulprovider
+    raw, bounds = _stream_of(fam('conv'))
+    j = pick(j, 0, len(bounds) - 1)
+    a = bounds[j]
+    n = int.from_bytes(raw[a + 2:a + 6], 'big') + 6
+    dulprovider.struct = prov._StructShim
+    p = sim.make_provider(sim.SimSocket())
+    p.event.clear()
+    p.primitive = None
+    p.raw_pdu = AbsBytes(raw, a, b) if b > a else b''
+    done = p._process_incoming()
+    complete = b - a >= n
+    if not complete:
+        ok = (not done) and len(p.event) == 0 and p.primitive is None and len(p.raw_pdu) == b - a
+        deep(ok and b - a > 6)
+        return ok
+    if raw[a] in dulprovider.PDU_TYPES:
+        cls, evt = dulprovider.PDU_TYPES[raw[a]]
+        ok = bool(done) and list(p.event) == [evt] and type(p.primitive) is cls and p.primitive.encode() == raw[a:a + n]
+    else:
+        from pynetdicom2 import fsm
+        ok = bool(done) and list(p.event) == [fsm.Events.EVT_19]     # unrecognised type: consumed, invalid-PDU event
+    rest = p.raw_pdu
+    ok = ok and len(rest) == b - a - n
+    if isinstance(rest, AbsBytes):
+        ok = ok and rest.stream is raw and rest.start == a + n and rest.stop == b
+    elif len(rest):
+        ok = ok and bytes(rest) == raw[a + n:b]
+    deep(ok and b > a + n + 3)
+    return ok
+
+
 FIRST = [dict(conv=n, turn=prov.peer_turns(CORPUS[n][1])[0]) for n in NAMES]
 
 
